@@ -230,6 +230,14 @@ func (c20) Gen(seed uint64, run int, tier string) *core.Case {
 				}
 			}
 		}
+		// a third of the cases on a streaming upload route mutate the aws-chunked framing
+		if rt.Streams && r.IntN(3) == 0 {
+			for _, g := range fs {
+				if g.kind == "chunk" {
+					f = g
+				}
+			}
+		}
 		cs.Mut, cs.Field = f.kind, f.name
 		if f.kind == "body" {
 			cs.Value = fmt.Sprint(r.IntN(1000)) // index resolved at execution (depends on the valid body)
